@@ -143,6 +143,10 @@ def make(kind, form='1d', alt=0):
         return S.SpatialInertia(2.0 + alt, [0.1, 0.2, 0.3], np.diag([1.0, 2.0, 3.0]))
     if k == 'PL':
         return S.Plucker.PQ([1.0 + alt, 2, 3], [4.0, 6, 9])
+    if k == 'PLN':
+        return S.Plane.PN([1.0, -2.0 + alt, 0.5], [2.0, 1.0, -3.0])          # non-unit normal, non-zero offset
+    if k == 'UQn':
+        return S.UnitQuaternion(-ref.r2q_ref(ref.rotx(2.6 + 0.1 * alt) @ ref.roty(0.1)), norm=False, check=False)   # same rotation, negative scalar part
     if k == 'DQ':
         return S.DualQuaternion(S.Quaternion([1.0 + alt, 2, 3, 4]), S.Quaternion([0.5, -1, 2, 1]))
     if k == 'UDQ':
@@ -150,11 +154,11 @@ def make(kind, form='1d', alt=0):
     raise HarnessError('no value of kind ' + kind)
 
 
-OBJ_KINDS = ['SO2', 'SE2', 'SO3', 'SE3', 'UQ', 'Q', 'Tw2', 'Tw3', 'SV', 'SA', 'SF', 'SM', 'SI', 'PL', 'DQ', 'UDQ']
+OBJ_KINDS = ['SO2', 'SE2', 'SO3', 'SE3', 'UQ', 'Q', 'Tw2', 'Tw3', 'SV', 'SA', 'SF', 'SM', 'SI', 'PL', 'PLN', 'UQn', 'DQ', 'UDQ']
 MULTI = ['SO2*', 'SE2*', 'SO3*', 'SE3*', 'UQ*', 'Q*', 'Tw2*', 'Tw3*', 'SV*', 'SF*']
 CLS2KIND = {'SO2': 'SO2', 'SE2': 'SE2', 'SO3': 'SO3', 'SE3': 'SE3', 'UnitQuaternion': 'UQ', 'Quaternion': 'Q', 'Twist2': 'Tw2', 'Twist3': 'Tw3',
             'SpatialVelocity': 'SV', 'SpatialAcceleration': 'SA', 'SpatialForce': 'SF', 'SpatialMomentum': 'SM', 'SpatialInertia': 'SI', 'Plucker': 'PL',
-            'DualQuaternion': 'DQ', 'UnitDualQuaternion': 'UDQ'}
+            'DualQuaternion': 'DQ', 'UnitDualQuaternion': 'UDQ', 'Plane': 'PLN'}
 
 
 def kinds_of(x):
@@ -274,6 +278,17 @@ def descriptors():
          ('UnitQuaternion.angle', lambda x, y: x.angle(y), ['UQ', 'UQ'], {}), ('SpatialVelocity.cross', lambda x, y: x.cross(y), ['SV', 'SA'], {}),
          ('SpatialVelocity.cross/F', lambda x, y: x.cross(y), ['SV', 'SF'], {}), ('Plucker.closest', lambda x, p: x.closest(p), ['PL', 'v3'], {}),
          ('Plucker.contains', lambda x, p: x.contains(p), ['PL', 'v3'], {}), ('Plucker.point', lambda x, l: x.point(l), ['PL', 's'], {}),
+         ('UnitQuaternion.interp/shortest', lambda x, y: x.interp(0.3, dest=y, shortest=True), ['UQ', 'UQn'], {}),
+         ('UnitQuaternion.interp/shortest/vec', lambda x, y: x.interp([0.2, 0.6], dest=y, shortest=True), ['UQ', 'UQn'], {}),
+         ('UnitQuaternion.interp/shortest/nodest', lambda x: x.interp(0.3, shortest=True), ['UQn'], {}),
+         ('base.slerp/shortest', lambda x, y: __import__('spatialmath.base', fromlist=['slerp']).slerp(x.vec, y.vec, 0.3, shortest=True), ['UQ', 'UQn'], {}),
+         ('UnitQuaternion.eq', lambda x, y: x == y, ['UQ', 'UQn'], {}),
+         ('Plucker.intersect_plane', lambda l, pl: l.intersect_plane(pl), ['PL', 'PLN'], {}),
+         ('Plucker.intersect_plane/4vec', lambda l, v: l.intersect_plane(v), ['PL', 'v4'], {}),
+         ('Plucker.Planes', lambda p1, p2: sm().Plucker.Planes(p1, p2), ['PLN', 'PLN'], {}),
+         ('Plane.contains', lambda pl, p: pl.contains(p), ['PLN', 'v3'], {}),
+         ('Plane.PN', lambda p, n: sm().Plane.PN(p, n), ['v3', 'v3'], {}),
+         ('Plane.P3', lambda M: sm().Plane.P3(M), ['R3'], {}),
          ('x[i]', lambda x: x[0], ['SE3*'], {}), ('x[i]', lambda x: x[1], ['SO3*'], {}), ('x[i]', lambda x: x[2], ['UQ*'], {}), ('x[i]', lambda x: x[0], ['Tw3*'], {}),
          ('x[a:b]', lambda x: x[0:2], ['SE3*'], {}), ('x[a:b]', lambda x: x[::-1], ['SO2*'], {}), ('iter', lambda x: [e for e in x], ['SE3*'], {}),
          ('copy-ctor', lambda x: type(x)(x), ['SE3*'], {}), ('copy-ctor', lambda x: type(x)(x), ['SO3'], {}), ('copy-ctor', lambda x: type(x)(x), ['UQ*'], {}),
